@@ -192,6 +192,64 @@ def _drop_ops(plan, client, lo, hi):
     return p
 
 
+def _refs(op):
+    """Object ids an op refers to through its arguments."""
+    out = set()
+
+    def walk(a):
+        if isinstance(a, dict):
+            if "$obj" in a:
+                out.add(a["$obj"])
+            for v in a.values():
+                walk(v)
+        elif isinstance(a, list):
+            for v in a:
+                walk(v)
+
+    walk(op.get("a"))
+    walk(op.get("kw"))
+    return out
+
+
+def _units(plan):
+    """Removal units for plans with atomic builds: ('op', client, idx) for evaluation /
+    observation / scan steps, ('obj', id) for an object with all its users."""
+    units = []
+    objs = []
+    for c, ops in enumerate(plan["clients"]):
+        for j, op in enumerate(ops):
+            if op["op"] in ("apply", "str", "getitem", "modules", "scan"):
+                units.append(("op", c, j))
+            elif op["op"] == "new" and op["obj"] not in objs:
+                objs.append(op["obj"])
+    units.sort(key=lambda u: (-u[1], -u[2]))  # back to front keeps indices valid per pass
+    return [("obj", o) for o in reversed(objs)] + units
+
+
+def _drop_unit(plan, unit):
+    p = copy.deepcopy(plan)
+    if unit[0] == "op":
+        _, c, j = unit
+        if c >= len(p["clients"]) or j >= len(p["clients"][c]):
+            return p
+        return _drop_ops(p, c, j, j + 1)
+    dead = {unit[1]}
+    grew = True
+    while grew:  # objects built from a dead object die with it
+        grew = False
+        for ops in p["clients"]:
+            for op in ops:
+                if op.get("obj") not in dead and op["op"] in ("new", "call") and _refs(op) & dead:
+                    dead.add(op["obj"])
+                    grew = True
+    for c in range(len(p["clients"])):
+        keep = [k for k, op in enumerate(p["clients"][c]) if op.get("obj") not in dead]
+        drop = [k for k in range(len(p["clients"][c])) if k not in keep]
+        for k in reversed(drop):
+            p = _drop_ops(p, c, k, k + 1)
+    return p
+
+
 def _prune(plan):
     """Drop plan parts nothing refers to any more (isolated entries, cfgs, trees, pumls)."""
     p = plan
@@ -249,29 +307,40 @@ def minimise(plan, hashseeds, sig, pool, budget_s=120):
     changed = True
     while changed and time.time() - t0 < budget_s:
         changed = False
-        # 2. whole clients
-        for c in reversed(range(len(cur["clients"]))):
-            n = len(cur["clients"][c])
-            if n == 0:
-                continue
-            cand = _prune(_drop_ops(cur, c, 0, n))
-            if fails(cand):
-                cur, changed = cand, True
-        # 3. op chunks per client (ddmin granularity halves)
-        for c in range(len(cur["clients"])):
-            chunk = max(1, len(cur["clients"][c]) // 2)
-            while chunk >= 1 and time.time() - t0 < budget_s:
-                i = 0
-                progressed = False
-                while i < len(cur["clients"][c]):
-                    cand = _prune(_drop_ops(cur, c, i, i + chunk))
-                    if fails(cand):
-                        cur, changed, progressed = cand, True, True
-                    else:
-                        i += chunk
-                if chunk == 1 and not progressed:
+        if cur.get("atomic_builds"):
+            # C15: a rule/architecture object is built completely or not at all (its builder
+            # calls are the specification that the isolated pass mirrors); evaluations,
+            # scans and whole objects (with everything that uses them) are the units.
+            for unit in _units(cur):
+                if time.time() - t0 > budget_s:
                     break
-                chunk = chunk // 2 if chunk > 1 else (1 if progressed else 0)
+                cand = _prune(_drop_unit(cur, unit))
+                if cand is not None and fails(cand):
+                    cur, changed = cand, True
+        else:
+            # 2. whole clients
+            for c in reversed(range(len(cur["clients"]))):
+                n = len(cur["clients"][c])
+                if n == 0:
+                    continue
+                cand = _prune(_drop_ops(cur, c, 0, n))
+                if fails(cand):
+                    cur, changed = cand, True
+            # 3. op chunks per client (ddmin granularity halves)
+            for c in range(len(cur["clients"])):
+                chunk = max(1, len(cur["clients"][c]) // 2)
+                while chunk >= 1 and time.time() - t0 < budget_s:
+                    i = 0
+                    progressed = False
+                    while i < len(cur["clients"][c]):
+                        cand = _prune(_drop_ops(cur, c, i, i + chunk))
+                        if fails(cand):
+                            cur, changed, progressed = cand, True, True
+                        else:
+                            i += chunk
+                    if chunk == 1 and not progressed:
+                        break
+                    chunk = chunk // 2 if chunk > 1 else (1 if progressed else 0)
         # 4. sequential schedule
         seq = sorted(cur["schedule"])
         if seq != cur["schedule"]:
